@@ -1,6 +1,7 @@
 import Proofs.Reflexive
 import Proofs.ReflexiveListing
 import Proofs.QueryShape
+import Proofs.QueryShapeMore
 import Proofs.MetaDelete
 
 /-!
@@ -382,5 +383,29 @@ theorem sort_as_in_source (across back : Inst → Option Inst) (set : List Inst)
 example : iSort firstFiltNegated firstFiltPhrase walkBody ac bk [8, 3, 7, 1, 2] 5 = [7, 8, 1, 2, 3] := by decide
 example : iSort firstFiltNegated firstFiltPhrase [.yieldIfInSet, .advance .given, .breakIfIsFirst] ac bk [8, 3, 7, 1, 2] 5 = [7, 1] := by decide
 example : iOtherPhrase otherSkips [aR] 0 "R1" "precedes" = some "succeeds" := by decide
+
+/-- `sort_reflexive` ON A METAMODEL STATE, as a whole and for every schema, state, set, rel id and phrase: the model
+    `sortReflexiveSt` is the interpretation of the generated IR — the empty-set guard (`QuerySet()`), the class of the
+    set's first member, the other-phrase search with the source's skip conditions (no link left = the `else: raise
+    UnknownLinkException`, here `none`), the first-instance filter navigating across the GIVEN phrase through the
+    interpreted `MetaClass.navigate` (an unknown key raises), and the generator, whose two partner functions are
+    `navigate_one(x).nav(kind, rel, phrase)()` read through the interpreted navigation (`assocSkip`, incl. the two-hop
+    branch) and the result form `navOneResult` of the `navigate_one` chain -/
+theorem sort_reflexive_state_as_in_source (sch : Schema) (s : State) (set : List Inst) (rel phrase : String) :
+    sortReflexiveSt sch s set rel phrase =
+      iSortSt otherSkips assocSkip navOneResult firstFiltNegated firstFiltPhrase walkBody sch s set rel phrase :=
+  sortReflexiveSt_eq sch s set rel phrase
+
+/-! non-vacuity: the interpreted whole sorts the three linked instances of the example above both ways, raises on a
+    phrase the class does not have, and returns the empty set for the empty set -/
+example : iSortSt otherSkips assocSkip navOneResult firstFiltNegated firstFiltPhrase walkBody [aR] (run [aR] opsR)
+      [2, 0, 1] "R1" "succeeds" = some [0, 1, 2] ∧
+    iSortSt otherSkips assocSkip navOneResult firstFiltNegated firstFiltPhrase walkBody [aR] (run [aR] opsR)
+      [2, 0, 1] "R1" "precedes" = some [2, 1, 0] ∧
+    iSortSt otherSkips assocSkip navOneResult firstFiltNegated firstFiltPhrase walkBody [aR] (run [aR] opsR)
+      [2, 0, 1] "R7" "precedes" = none ∧
+    iSortSt otherSkips assocSkip navOneResult firstFiltNegated firstFiltPhrase walkBody [aR] (run [aR] opsR)
+      [] "R1" "precedes" = some [] := by decide
+
 
 end PyxProps.C16
